@@ -120,11 +120,12 @@ var emacsKills = []string{"kill-line", "backward-kill-line", "unix-line-discard"
 	"unix-word-rubout", "kill-whole-line", "kill-region", "shell-kill-word", "shell-backward-kill-word"}
 
 type c16X struct {
-	Kills []int `json:"kills"` // token indexes of the kill commands
-	Yank  int   `json:"yank"`  // token index of the yank
-	Vi    bool  `json:"vi"`
-	Yank2 int   `json:"yank2,omitempty"` // token index of a second yank of the same kill, after edits that are not kills
-	Warm  int   `json:"warm,omitempty"`  // tokens of an earlier Readline call on the same shell, left without accepting a line
+	Kills []int  `json:"kills"` // token indexes of the kill commands
+	Yank  int    `json:"yank"`  // token index of the yank
+	Vi    bool   `json:"vi"`
+	Yank2 int    `json:"yank2,omitempty"` // token index of a second yank of the same kill, after edits that are not kills
+	Warm  int    `json:"warm,omitempty"`  // tokens of an earlier Readline call on the same shell, left without accepting a line
+	Reg   string `json:"reg,omitempty"`   // vi: the register named before the kill and before the put
 }
 
 func genC16(g *Gen, tier string, idx int) *wire.Scenario {
@@ -188,8 +189,16 @@ func genC16(g *Gen, tier string, idx int) *wire.Scenario {
 				script = append(script, tok("l", "vi-move"))
 			}
 		}
+		// a named register for the kill and for the put (letters, and the digits that name the numbered ones)
+		if x.Warm == 0 && !recording && len(x.Kills) == 0 && g.P(25) {
+			x.Reg = Pick(g, []string{"a", "b", "z", "1", "5", "9"})
+			script = append(script, tok("\"", "vi-set-buffer"), tok(x.Reg, "register"))
+		}
 		x.Kills = append(x.Kills, len(script))
 		script = append(script, tok(g.Cat.ShortSeqFor(km, cmd), cmd))
+		if x.Reg != "" {
+			script = append(script, tok("\"", "vi-set-buffer"), tok(x.Reg, "register"))
+		}
 		x.Yank = len(script)
 		script = append(script, tok(g.Cat.ShortSeqFor(km, "vi-put-before"), "vi-put-before"))
 	} else {
@@ -297,7 +306,7 @@ func execC16(x *Ctx, sc *wire.Scenario) *wire.Result {
 			if b1.Kill != run && isRemovalOf(b0.Line, b1.Line, b1.Kill) {
 				run = b1.Kill // the same result can come from removing another, equal-effect run
 			}
-			if b1.Kill != run {
+			if b1.Kill != run && xx.Reg == "" { // (a kill into a named register is judged by what the put gives back)
 				return violation(res, "MISMATCH", "C16.kill-buffer-holds-removed-text", "kill-buffer-differs:"+cmd,
 					fmt.Sprintf("%s removed %q from %q (cursor %d) but the kill buffer holds %q", cmd, run, b0.Line, b0.Pos, b1.Kill))
 			}
@@ -316,6 +325,13 @@ func execC16(x *Ctx, sc *wire.Scenario) *wire.Result {
 	}
 	if !ok || ins != lastR {
 		sig := "yank-differs:" + sc.Script[xx.Yank].Cmd + ":after-" + sc.Script[xx.Kills[len(xx.Kills)-1]].Cmd
+		if xx.Reg != "" {
+			cls := "letter"
+			if xx.Reg[0] >= '0' && xx.Reg[0] <= '9' {
+				cls = "digit"
+			}
+			sig += ":named-register:" + cls
+		}
 		if k := xx.Kills[len(xx.Kills)-1]; k > 0 && sc.Script[k-1].Cmd == "digit-argument" && ok && len(ins) > len(lastR) && strings.Repeat(lastR, len(ins)/len(lastR)) == ins {
 			// the numeric argument typed for the kill is applied to the yank again
 			sig = "yank-differs:numeric-argument-of-the-kill-repeats-the-yank"
